@@ -61,14 +61,25 @@ def func_work(item):
         if len(table) >= 2 and n_table % 7 == 0:
             # the permission list is a public attribute: the same table, grown in place on an existing user (an entry
             # granted or locked while the server runs) - what counts is the table as it is when the request comes
+            # (requests are served in between: what counts is the table as it is when the next request comes)
             u2 = aioftp.User(permissions=[mk(table[0])])
             for e in table[1:]:
+                call(u2.get_permissions("/a/b"))
                 u2.permissions.append(mk(e))
             built.append(("appended", u2))
             u3 = aioftp.User(permissions=[mk(table[-1])])
             for e in reversed(table[:-1]):
+                call(u3.get_permissions("/"))
                 u3.permissions.insert(0, mk(e))
             built.append(("inserted", u3))
+            u4 = aioftp.User(permissions=[mk(("/", False, False))])
+            call(u4.get_permissions("/c"))
+            u4.permissions = [mk(e) for e in table]
+            built.append(("reassigned", u4))
+            u5 = aioftp.User(permissions=[mk(e) for e in table] + [mk(("/a/b/c", False, False))])
+            call(u5.get_permissions("/a/b/c"))
+            del u5.permissions[-1]
+            built.append(("entry-removed", u5))
         for how, user in built:
             for q in qs:
                 perm = call(user.get_permissions(q))
